@@ -35,6 +35,11 @@ void GMGPolar::solve()
     /* Initialize starting solution */
     /* ---------------------------- */
 
+    /* The combined strategy starts every solve - including its FMG start-up - with full grid smoothing and switches
+     * at most once. */
+    if (extrapolation_ == ExtrapolationType::COMBINED)
+        full_grid_smoothing_ = true;
+
     auto start_initial_approximation = std::chrono::high_resolution_clock::now();
     initializeSolution();
     auto end_initial_approximation = std::chrono::high_resolution_clock::now();
@@ -54,10 +59,6 @@ void GMGPolar::solve()
 
     int start_level_depth = 0;
     Level& level          = levels_[start_level_depth];
-
-    /* The combined strategy starts every solve with full grid smoothing and switches at most once. */
-    if (extrapolation_ == ExtrapolationType::COMBINED)
-        full_grid_smoothing_ = true;
 
     number_of_iterations_ = 0;
     residual_norms_.clear();
